@@ -216,21 +216,22 @@ Lemma set_data_expire_ok d a s s' :
   set_data_expire d a s = Ok tt s' -> exists ex, s' = s <| expdata := ex |>.
 Proof. unfold set_data_expire, modify. intros H; inversion H. eexists; reflexivity. Qed.
 
-Lemma reset_meta_duration_ok d m s m2 s' :
-  reset_meta_duration d m s = Ok m2 s' ->
+Lemma reset_meta_duration_ok cx d m s m2 s' :
+  reset_meta_duration cx d m s = Ok m2 s' ->
   (exists ex, s' = s <| expdata := ex |>) /\ (exists nd, m2 = m <| m_duration := nd |>).
 Proof.
   unfold reset_meta_duration. intros H. apply bind_ok in H as (s0 & s1 & Hg & H). inversion Hg; subst s0 s1; clear Hg.
+  cbv zeta in H.
   destruct (m_duration m =? _) eqn:E.
   - inversion H; subst. split; [exists (expdata s'); apply state_eta|]. exists (m_duration m2). destruct m2; reflexivity.
   - apply bind_ok in H as ([] & s1 & H1 & H). apply bind_ok in H as ([] & s2 & H2 & H).
     inversion H; subst. apply remove_data_expire_ok in H1 as (e1 & ->). apply set_data_expire_ok in H2 as (e2 & ->).
     split; eexists; reflexivity.
 Qed.
-Lemma reset_meta_duration_noerr d m : noerr (reset_meta_duration d m).
+Lemma reset_meta_duration_noerr cx d m : noerr (reset_meta_duration cx d m).
 Proof.
   intros s e s' H. unfold reset_meta_duration in H. apply bind_err in H as [H|(s0 & s1 & Hg & H)]; [discriminate|].
-  inversion Hg; subst s0 s1; clear Hg. destruct (m_duration m =? _); [discriminate|].
+  inversion Hg; subst s0 s1; clear Hg. cbv zeta in H. destruct (m_duration m =? _); [discriminate|].
   apply bind_err in H as [H|([] & s1 & H1 & H)]; [eapply remove_data_expire_noerr; eassumption|].
   apply bind_err in H as [H|([] & s2 & H2 & H)]; discriminate.
 Qed.
@@ -253,8 +254,8 @@ Definition rolled_back (data : string) (s s' : State) : Prop :=
       end
   end.
 
-Lemma rollback_meta_ok data s s' :
-  rollback_meta data s = Ok tt s' -> only_model_tables s s' /\ rolled_back data s s'.
+Lemma rollback_meta_ok cx data s s' :
+  rollback_meta cx data s = Ok tt s' -> only_model_tables s s' /\ rolled_back data s s'.
 Proof.
   unfold rollback_meta, only_model_tables, rolled_back. intros H.
   apply bind_ok in H as (s0 & s1 & Hg & H). inversion Hg; subst s0 s1; clear Hg.
@@ -271,7 +272,7 @@ Proof.
       * split; apply lookup_delete.
   - inversion H; subst. split; [exists (expdata s'); destruct s'; reflexivity|]. split; [reflexivity|]. split; reflexivity.
 Qed.
-Lemma rollback_meta_noerr data : noerr (rollback_meta data).
+Lemma rollback_meta_noerr cx data : noerr (rollback_meta cx data).
 Proof.
   intros s e s' H. unfold rollback_meta in H. apply bind_err in H as [H|(s0 & s1 & Hg & H)]; [discriminate|].
   inversion Hg; subst s0 s1; clear Hg. destruct (metas s !! data) as [em|]; [|discriminate].
@@ -300,10 +301,10 @@ Proof.
   destruct (pay_addr s _); [|inversion H; reflexivity]. eapply send_strict_err; eassumption.
 Qed.
 
-Lemma cancel_order_inv oid s s' o :
-  cancel_order oid s = Ok tt s' -> orders s !! oid = Some o ->
+Lemma cancel_order_inv cx oid s s' o :
+  cancel_order cx oid s = Ok tt s' -> orders s !! oid = Some o ->
   exists payer s2, pay_addr s (paydid_of o) = Some payer /\ 0 < o_amount o /\ o_amount o <= balance s (macc ORDER) /\
-    rollback_meta (o_data o) (move (macc ORDER) payer (o_amount o) s) = Ok tt s2 /\
+    rollback_meta cx (o_data o) (move (macc ORDER) payer (o_amount o) s) = Ok tt s2 /\
     s' = s2 <| orders ::= delete oid |>.
 Proof.
   unfold cancel_order. intros H Ho. apply bind_ok in H as (s0 & s1 & Hg & H). inversion Hg; subst s0 s1; clear Hg.
@@ -315,7 +316,7 @@ Proof.
 Qed.
 
 (* an error return of cancel_order is always the failed refund, with nothing written *)
-Lemma cancel_order_err oid s e s' : cancel_order oid s = Err e s' -> e = "RefundOrder" /\ s' = s.
+Lemma cancel_order_err cx oid s e s' : cancel_order cx oid s = Err e s' -> e = "RefundOrder" /\ s' = s.
 Proof.
   unfold cancel_order. intros H. apply bind_err in H as [H|(s0 & s1 & Hg & H)]; [discriminate|].
   inversion Hg; subst s0 s1; clear Hg.
@@ -325,7 +326,7 @@ Proof.
   - apply refund_order_err in Hr as ->. inversion H; subst. split; reflexivity.
 Qed.
 
-Theorem cancel_order_post : forall oid s s' o payer, cancel_order oid s = Ok tt s' -> orders s !! oid = Some o ->
+Theorem cancel_order_post : forall cx oid s s' o payer, cancel_order cx oid s = Ok tt s' -> orders s !! oid = Some o ->
   pay_addr s (if String.eqb (o_paydid o) "" then o_owner o else o_paydid o) = Some payer -> payer <> macc ORDER ->
   balance s' payer = balance s payer + o_amount o /\ balance s' (macc ORDER) = balance s (macc ORDER) - o_amount o /\
   (forall a, a <> payer -> a <> macc ORDER -> bal s' !! a = bal s !! a) /\
@@ -344,8 +345,8 @@ Theorem cancel_order_post : forall oid s s' o payer, cancel_order oid s = Ok tt 
       end
   end.
 Proof.
-  intros oid s s' o payer H Ho Hp Hne.
-  apply (cancel_order_inv _ _ _ o) in H as (payer' & s2 & Hp' & H1 & H2 & Hrb & ->); [|assumption].
+  intros cx oid s s' o payer H Ho Hp Hne.
+  apply (cancel_order_inv _ _ _ _ o) in H as (payer' & s2 & Hp' & H1 & H2 & Hrb & ->); [|assumption].
   unfold paydid_of in Hp'. rewrite Hp in Hp'. inversion Hp'; subst payer'; clear Hp'.
   apply rollback_meta_ok in Hrb as ((ex & Hfr) & Hk & Hm).
   set (s1 := move (macc ORDER) payer (o_amount o) s) in *.
@@ -422,7 +423,7 @@ Proof.
   apply bind_ok in H as ([] & s1 & Hl & H).
   apply (cancel_shards_loop (o_shards o)) in Hl as (Hf & Hin & Hout); [|exact Hst].
   assert (Ho1 : orders s1 !! oid = Some o) by (rewrite Hf; exact Ho).
-  apply (cancel_order_inv _ _ _ o) in H as (payer & s2 & Hp & H1 & H2 & Hrb & ->); [|exact Ho1].
+  apply (cancel_order_inv _ _ _ _ o) in H as (payer & s2 & Hp & H1 & H2 & Hrb & ->); [|exact Ho1].
   apply rollback_meta_ok in Hrb as ((ex & Hfr) & _).
   set (s1m := move (macc ORDER) payer (o_amount o) s1) in *.
   split; [cbn; apply lookup_delete|].
@@ -442,21 +443,21 @@ Print Assumptions cancel_msg_post.
 (* exact form: either the cancellation went through, or the refund failed and nothing at all
    was written (RollbackMeta itself has no error return) *)
 Theorem timeout_pending_cancels_exact : forall cx oid s s' o, handle_timeout_order cx oid s = Ok tt s' -> orders s !! oid = Some o ->
-  o_status o = OrderPending -> cancel_order oid s = Ok tt s' \/ (cancel_order oid s = Err "RefundOrder" s /\ s' = s).
+  o_status o = OrderPending -> cancel_order cx oid s = Ok tt s' \/ (cancel_order cx oid s = Err "RefundOrder" s /\ s' = s).
 Proof.
   intros cx oid s s' o H Ho Hs. unfold handle_timeout_order in H.
   apply bind_ok in H as (s0 & s0' & Hg & H). inversion Hg; subst s0 s0'; clear Hg.
   rewrite Ho, Hs in H. change (OrderPending =? OrderPending) with true in H. cbv iota in H.
   apply bind_ok in H as (r & s1 & Ht & H). inversion H; subst s1; clear H.
   apply try_ok in Ht as [([] & Hc & _)|(e & Hc & _)]; [left; exact Hc|].
-  right. destruct (cancel_order_err _ _ _ _ Hc) as (-> & ->). split; [exact Hc | reflexivity].
+  right. destruct (cancel_order_err _ _ _ _ _ Hc) as (-> & ->). split; [exact Hc | reflexivity].
 Qed.
 Print Assumptions timeout_pending_cancels_exact.
 
 Theorem timeout_pending_cancels : forall cx oid s s' o, handle_timeout_order cx oid s = Ok tt s' -> orders s !! oid = Some o ->
   o_status o = OrderPending ->
-  (cancel_order oid s = Ok tt s') \/ (s' = s (* the refund failed: nothing changed *)) \/
-  (exists e sx, cancel_order oid s = Err e sx /\ s' = sx).
+  (cancel_order cx oid s = Ok tt s') \/ (s' = s (* the refund failed: nothing changed *)) \/
+  (exists e sx, cancel_order cx oid s = Err e sx /\ s' = sx).
 Proof.
   intros cx oid s s' o H Ho Hs. destruct (timeout_pending_cancels_exact _ _ _ _ _ H Ho Hs) as [Hc|(Hc & ->)].
   - left; exact Hc.
